@@ -33,7 +33,7 @@ REQUIRED = {"rerun.lists_exactly_unsuccessful": {"quick": 500, "thorough": 25000
             "rerun.lists_what_the_reference_model_says_failed": {"quick": 150, "thorough": 8000},
             "rerun.scenario_whose_hook_raised_is_listed": {"quick": 40, "thorough": 2000}}
 REQUIRED_SEEN = {"listed_status": ["failed", "error", "hook_error"], "feature_order": ["directory", "explicit_reversed"],
-                 "fail_fast_environment": ["feature", "rule"], "rerun_loop_shape": ["input_only", "same_file_in_and_out", "same_file_in_and_out_by_config"], "raising_hook_of_listed_scenario": ["before_tag", "after_tag", "before_scenario", "before_step"]}
+                 "fail_fast_environment": ["feature", "rule"], "nested_sub_step": ["undefined", "fail", "error"], "program_shape": ["stepless_scenarios"], "rerun_loop_shape": ["input_only", "same_file_in_and_out", "same_file_in_and_out_by_config"], "raising_hook_of_listed_scenario": ["before_tag", "after_tag", "before_scenario", "before_step"]}
 NSHARDS = {"quick": 16, "thorough": 16}
 
 
@@ -116,8 +116,20 @@ def one_history(lab, mon, rng, case, stale, sample=False):
                         raise RuntimeError("injected cleanup failure")
                     context.add_cleanup(bad_cleanup)
             plugins.append(bad_cleanup_plugin)
+        nested = case.get("nested") or {}
+        nest_state = {"busy": False}
+        reached_outer = []
+
+        def nest_plugin(state, context, text):
+            if text in nested and not nest_state["busy"]:
+                nest_state["busy"] = True
+                reached_outer.append(context.scenario.name)
+                try:
+                    context.execute_steps(u"Given %s\n" % nested[text])
+                finally:
+                    nest_state["busy"] = False
         obs = lab.run(case["program"], args=case["args"], features=feats, formatters=formatters,
-                      hook_fault=case.get("hook_fault"), hook_plugins=plugins)
+                      hook_fault=case.get("hook_fault"), hook_plugins=plugins, step_plugins=[nest_plugin] if nested else [])
         W = lambda **kw: RB.witness(case, **kw)
         if obs.escaped is not None:
             mon.check("run.no_exception_escapes", False, lambda: W(escaped=repr(obs.escaped)))
@@ -143,7 +155,7 @@ def one_history(lab, mon, rng, case, stale, sample=False):
                 loc_name[str(sc.location)] = sc.name
         listed_names = [loc_name.get(l) for l in got]
         unique = len(set(status_of)) == sum(1 for f in feats for _ in f.walk_scenarios())
-        if unique and not (case.get("hook_fault") or case.get("fail_fast") or case.get("raising_cleanup") or case["cfg"].get("cafs")):
+        if unique and not (case.get("hook_fault") or case.get("fail_fast") or case.get("raising_cleanup") or case.get("nested") or case["cfg"].get("cafs")):
             # (the model runs the features in the order this run had them: explicit file order / sorted directory listing)
             by_file = {f["file"]: f for f in case["program"]["features"]}
             in_run_order = [by_file[os.path.basename(ft.filename)] for ft in feats if os.path.basename(ft.filename) in by_file]
@@ -159,6 +171,11 @@ def one_history(lab, mon, rng, case, stale, sample=False):
                     mon.check("rerun.scenario_whose_hook_raised_is_listed", victim in listed_names,
                               lambda: W(hook=[hname, str(ename), fired[3]], scenario=victim, listed=listed_names, its_status=status_of.get(victim)))
                     mon.seen("raising_hook_of_listed_scenario", hname)
+        if nested and unique:
+            # a step that runs an undefined / failing / raising sub-step with context.execute_steps() fails: its scenario is listed
+            for sname in reached_outer:
+                mon.check("rerun.scenario_with_failing_sub_step_is_listed", sname in listed_names,
+                          lambda: W(scenario=sname, nested=nested, listed=listed_names, its_status=status_of.get(sname)))
         if cleanup_owner and obs.verdict:
             mon.check("rerun.scenario_with_failed_cleanup_is_listed", cleanup_owner[0] in got,
                       lambda: W(scenario_whose_cleanup_raised=cleanup_owner[0], listed=got,
@@ -301,6 +318,10 @@ def run(spec, mon):
     for i in range(n):
         gen = {"outcomes": outs, "max_features": rng.choice([2, 3, 4]), "p_nonpass": rng.choice([0.0, 0.3, 0.5]),
                "p_stepless": 0.0, "max_items": 2, "max_rules": 1}
+        if i % 7 == 5:
+            # scenarios without any step in features without background: skipped in the second run unless listed
+            gen.update({"p_stepless": 0.35, "p_background": 0.0, "p_rule_background": 0.0})
+            mon.seen("program_shape", "stepless_scenarios")
         case = RB.gen_case(rng, gen=gen, p_stop=0.1, p_dry=0.0, p_noskipped=0.3)
         if i % 3 == 2:
             duplicate_names(case, rng)
@@ -315,6 +336,15 @@ def run(spec, mon):
             # (not together with the fail-fast environment: skip() after a cleanup failure loses the error -- known finding of C13)
             case = dict(case, raising_cleanup=True)
             mon.seen("raising_cleanup", "scenario layer")
+        if i % 5 == 4 and not case.get("hook_fault"):
+            cands = [t for t, oc in case["program"]["outcomes"].items() if oc == "pass" and t[0] == "k"]
+            if cands:
+                sub_kind = rng.choice(["undefined", "undefined", "fail", "error"])
+                sub = ("u9%d sub step" if sub_kind == "undefined" else "k9%d sub step") % rng.randrange(1000, 9999)
+                if sub_kind != "undefined":
+                    case["program"]["outcomes"][sub] = sub_kind
+                case = dict(case, nested={rng.choice(cands): sub})
+                mon.seen("nested_sub_step", sub_kind)
         if i % 10 == 7:
             # "-f rerun -o reports/rerun.txt": the report in a sub-directory, fed back as @reports/rerun.txt
             case = dict(case, rerun_file="reports/rerun.txt")
